@@ -202,6 +202,25 @@ def fitted_data_problems(sch, spec, stats):
     for (tid, r), val in fitted.items():
         cfg = fstate.config_for_trial[tid]
         want.append((tuple(sorted((k, str(v)) for k, v in cfg.items())), r, val))
+    # the same comparison through the Coq model (cap_state / fitted_rows), a few per case
+    if len(stats.setdefault("coq_cases", [])) < 3 and (len(full) > max_size or stats.get("fits", 0) % 5 == 0):
+        ids = {}
+        for tid, cfg in fstate.config_for_trial.items():
+            ids.setdefault(tuple(sorted((k, str(v)) for k, v in cfg.items())), len(ids))
+        tbl = [(int(tid), ids[tuple(sorted((k, str(v)) for k, v in cfg.items()))]) for tid, cfg in fstate.config_for_trial.items()]
+
+        def st_term(state):
+            o = ["((%s, %s), %s)" % (zlit(int(t)), zlit(r), q(v)) for (t, r), v in obs_of(state).items()]
+            pe = ["(%s, %s)" % (zlit(int(x.trial_id)), zlit(int(x.resource))) for x in state.pending_evaluations]
+            fa = [zlit(int(x)) for x in state.failed_trials]
+            return "{| obs := %s; pend := %s; failed := %s |}" % (
+                lst(o) if o else "(@nil ((Z * Z) * Q))", lst(pe) if pe else "(@nil (Z * Z))", lst(fa) if fa else "(@nil Z)")
+        rws = ["((%s, %s), %s)" % (zlit(ids[r0]) if r0 in ids else zlit(-2), zlit(r1), q(r2)) for (r0, r1, r2) in rows]
+        keys = [zlit(int(t)) for t in tr.state.config_for_trial.keys()]
+        stats["coq_cases"].append("(%s, %s, %s, %s, %s, %s)" % (
+            natlit(min(max_size, 4000)), lst(keys) if keys else "(@nil Z)", st_term(tr.state), st_term(fstate),
+            lst(["(%s, %s)" % (zlit(a), zlit(b)) for a, b in tbl]) if tbl else "(@nil (Z * Z))",
+            lst(rws) if rws else "(@nil (Z * Z * Q))"))
     if sorted(rows) != sorted(want):
         missing = [w for w in want if w not in rows]
         bad.append(("rows_handed_to_surrogate_differ", len(rows), len(want), missing[:3]))
@@ -406,11 +425,41 @@ def check_state(spec, rung_levels, max_t, lives, obs, pend, dup, crit):
 # ---------------------------------------------------------------------------------------------------
 # synchronous Hyperband + GP searcher: the 'resource > prev_level' guard
 # ---------------------------------------------------------------------------------------------------
+FIT_PRELUDE = r"""
+(* fitted data: cap, keys of config_for_trial, current searcher state, the state the predictor was computed from,
+   trial -> configuration id, rows observed_data_for_metric returned (configuration id, level, value) *)
+Definition fit_case := (nat * list Z * sstate * sstate * list (Z * Z) * list (Z * Z * Q))%type.
+Definition cfg_of (tbl : list (Z * Z)) (t : Z) : Z :=
+  match filter (fun e => fst e =? t) tbl with e :: _ => snd e | [] => -1 end.
+Definition row_eqb (a b : Z * Z * Q) : bool := (fst (fst a) =? fst (fst b)) && (snd (fst a) =? snd (fst b)) && Qeqb (snd a) (snd b).
+(* multiset equality of rows: same length and mutual inclusion with counts *)
+Fixpoint remove_row (x : Z * Z * Q) (l : list (Z * Z * Q)) : option (list (Z * Z * Q)) :=
+  match l with [] => None | y :: r => if row_eqb x y then Some r else match remove_row x r with Some r' => Some (y :: r') | None => None end end.
+Fixpoint multiset_eqb (a b : list (Z * Z * Q)) : bool :=
+  match a with [] => match b with [] => true | _ => false end
+  | x :: r => match remove_row x b with Some b' => multiset_eqb r b' | None => false end end.
+Definition chk_fit (c : fit_case) : bool :=
+  let '(cap, cfg, cur, fit, tbl, rows) := c in
+  let choose := fun (_ : list ((Z * Z) * Q)) (_ : nat) => obs fit in      (* the converter's choice, as observed *)
+  (* the observed choice is a legal one (hypothesis choose_ok of c14_fitted_data on this instance) *)
+  (Nat.leb (length (obs cur)) cap || (sub_list obs_entry_eqb (obs fit) (obs cur) && Nat.eqb (length (obs fit)) cap)) &&
+  match cap_state choose cap cfg cur with
+  | None => false
+  | Some (_, s') =>
+      same_set obs_entry_eqb (obs s') (obs fit) && list_eqb key_eqb (pend s') (pend fit) && list_eqb Z.eqb (failed s') (failed fit) &&
+      Nat.eqb (length (obs s')) (Nat.min (length (obs cur)) cap) &&
+      multiset_eqb (fitted_rows (cfg_of tbl) s') rows
+  end.
+"""
+
 SYNC_PRELUDE = r"""
 Definition sync_case := (bool * bool * list (sync_ev * snapshot))%type.
 Definition diag_sync (c : sync_case) : Z := let '(all, mx, evs) := c in sync_diff all mx s_empty evs 0.
 Definition chk_sync (c : sync_case) : bool := diag_sync c =? -1.
 """
+
+
+FIT_CASES = []
 
 
 def gen_sync_spec(rng):
@@ -613,7 +662,11 @@ def run(ctx, replay=None):
         ctx.h("num_events", len(kinds) // 10 * 10)
         ctx.h("real_gp_fits", spec["num_init_random"] < 100)
         for k, v in res.get("fit_stats", {}).items():
-            ctx.h("fitted_data_" + k, "count", v)
+            if k == "coq_cases":
+                for term in v:
+                    FIT_CASES.append((term, case))
+            else:
+                ctx.h("fitted_data_" + k, "count", v)
         if res["snaps"]:
             ctx.h("final_observations", min(len(res["snaps"][-1][0]) // 5 * 5, 30))
             ctx.h("max_pending", min(max(len(s[1]) for s in res["snaps"]), 12))
@@ -644,6 +697,15 @@ def run(ctx, replay=None):
                 observations=res["snaps"][-1][0][:8], pending=res["snaps"][-1][1][:8], failed=res["snaps"][-1][2])))
         cases.append(coq_case(spec, res))
         meta.append(case)
+    # ---- fitted data against cap_state / fitted_rows of the model ------------------------------------------------
+    if FIT_CASES:
+        ctx.h("fitted_data_model_cases", "count", len(FIT_CASES))
+        fbad = ctx.coq_bad_cases("fit", IMPORTS, FIT_PRELUDE, "chk_fit", [t for t, _ in FIT_CASES], shard=40)
+        for i in fbad[:4]:
+            ctx.violation("correspondence", "model/SearcherData.v cap_state / fitted_rows differ from the data the surrogate was "
+                          "fitted to (state converter + observed_data_for_metric)", case=FIT_CASES[i][1], failing_input=False,
+                          broken="correspondence chk_fit (model/SearcherData.v cap_state, fitted_rows)")
+        del FIT_CASES[:]
     # ---- synchronous Hyperband: the resource > prev_level guard -------------------------------------------
     if replay is None or replay.get("part") == "sync":
         sspecs = [replay["spec"]] if replay is not None else [gen_sync_spec(rng) for _ in range(ctx.n(40, 500))]
